@@ -213,7 +213,18 @@ def _(M, a, c):
 @model_re(r'^Box::new$')
 def _(M, a, c): return Native('Box', slot=[a[0]])
 @model_re(r'^<.* as Into<.*>>::into$|^<.* as From<.*>>::from$')
-def _(M, a, c): return a[0]
+def _(M, a, c):
+    x = a[0]
+    if isinstance(x, Int):
+        # lossless integer / char conversions change the width (`i64::from(i32)`, `char::from(u8)`, `u32::from(char)`)
+        nm = norm_name(c)
+        m = re.match(r'^<(\w+) as From<(\w+)>>::from$', nm); dst = m.group(1) if m else None
+        if dst is None:
+            m = re.match(r'^<(\w+) as Into<(\w+)>>::into$', nm); dst = m.group(2) if m else None
+        if dst in INT_TY:
+            w, s = INT_TY[dst]
+            return ms.int_cast(x, w, s)
+    return x
 
 # ======================================================================= (second prototype file)
 
@@ -342,7 +353,11 @@ INVALID_UTF8 = 'stream did not contain valid UTF-8'
 def _utf8_ok(M, bs):
     """decide (forking on symbolic bytes) whether the byte terms are well-formed UTF-8"""
     if not bs: return True
-    if any(b.sym() for b in bs): return M.branch(utf8_valid_formula(bs))
+    if any(b.sym() for b in bs):
+        # every check except the one about arbitrary file contents (C03's non-UTF-8 jobs) works under the precondition
+        # "the script is UTF-8 text": the symbolic bytes are constrained to well-formed sequences
+        if ENV.get('assume_utf8', True): M.assume(utf8_valid_formula(bs)); return True
+        return M.branch(utf8_valid_formula(bs))
     try: bytes(b.v for b in bs).decode('utf-8'); return True
     except UnicodeDecodeError: return False
 def io_err(msg): return Native('IoError', msg=msg)
@@ -415,6 +430,13 @@ def _(M, a, c): raise Exit(a[0].v)
 def _(M, a, c):
     m = re.search(r'new_(display|debug)::<(.*)>$', c.strip())
     return Native('FmtArg', v=a[0], ty=m.group(2), fk=m.group(1))
+ENVDEP = []          # environment-dependent values that reached an output (memory addresses ...): reported by the determinism check
+@model_re(r'^core::fmt::rt::Argument::new_pointer$')
+def _(M, a, c):
+    # `{:p}`: a memory address -- differs from run to run (address-space randomisation, allocation history): a fresh symbolic value
+    FORK_CHOICE['n'] += 1
+    ENVDEP.append('a memory address is formatted into a string (`{:p}`)')
+    return Native('FmtArg', v=Int(64, False, z3.BitVec('addr%d' % FORK_CHOICE['n'], 64)), ty='usize', fk='pointer')
 @model_re(r'^Arguments::new$')
 def _(M, a, c): return Native('Arguments', tmpl=a[0], args=a[1])
 @model_re(r'^Arguments::from_str(_nonconst)?$')
@@ -463,6 +485,8 @@ def render_one(M, fa):
             if v.d.get('sym'): raise Unsupported('Display of a Utf8Error over symbolic bytes')
             if v.d.get('error_len') is None: return elems('incomplete utf-8 byte sequence from index %d' % v.d['valid_up_to'])
             return elems('invalid utf-8 sequence of %d bytes from index %d' % (v.d['error_len'], v.d['valid_up_to']))
+    elif kind == 'pointer':
+        return elems('0x') + [Dec(v.v)]
     else:
         if base == 'Option<String>':
             return elems('None') if v.variant == 0 else elems('Some("') + toelems(v.fields[0]) + elems('")')
